@@ -30,10 +30,26 @@ NodesOK(logged, want) == /\ Len(logged) = Len(want)
                          /\ \A i \in 1..Len(want) : logged[i].d = want[i].d /\ SameNode(logged[i].v, want[i].v)
 KindOfOrder(o) == IF o = 0 THEN "F" ELSE IF o = 1 THEN "D1" ELSE "D2"
 
+\* Rounding scale of a look-up.  The crate forms an interpolated quantity as y1 + (y2 - y1) * w, so a derivative that
+\* belongs to the LEFT node only is (1 - w) * g1 computed as g1 - g1 * w: close to the right node it is tiny while its
+\* rounding error is that of the full-weight g1 (observed: relative 1.4e-9 at weight 6e-8, one minute before a node of
+\* a thirty-year interval).  Every first-order entry is therefore compared on the scale of the whole gradient, every
+\* second-order entry on the scale of the whole Hessian (and of the squared gradient over the value, for the rules that
+\* pass through exp / log) - still a relative 1e-9, so a wrong factor, sign or index remains an error of order one.
+Widen(W, NS) ==
+  LET RECURSIVE SumG(_)
+      SumG(T) == IF T = {} THEN FZ ELSE LET x == CHOOSE x \in T : TRUE IN FAdd(FAbs(W.g[x]), SumG(T \ {x}))
+      RECURSIVE SumH(_)
+      SumH(T) == IF T = {} THEN FZ ELSE LET x == CHOOSE x \in T : TRUE IN FAdd(FAbs(W.h[x]), SumH(T \ {x}))
+      gs == SumG(NS)
+      hs == SumH(NS \X NS)
+      g2 == IF FEq(W.re, FZ) THEN FZ ELSE FDiv(FMul(gs, gs), FAbs(W.re))
+  IN [W EXCEPT !.sg = [n \in NS |-> FAdd(W.sg[n], gs)],
+               !.sh = [p \in NS \X NS |-> FAdd(W.sh[p], FAdd(hs, g2))]]
 \* one look-up
 QueryOK(rule, nodes, ib, tags, q) ==
   LET NS == NodeNames(nodes) \cup (IF IsNum(q.val) THEN NamesOf(q.val) ELSE {})
-      W == Value(rule, nodes, q.x, NS)
+      W == Widen(Value(rule, nodes, q.x, NS), NS)
       tame == FIsFinite(W.re) /\ FLt(FAbs(W.re), Big) /\ FLt(FOfRat(1, 1000000), FAbs(W.re))
   IN /\ q.idx = IndexLeftDecl(Days(nodes), q.x)
      /\ (tame => /\ q.o = "ok" /\ IsNum(q.val) /\ q.val.k = nodes[1].v.k
@@ -50,7 +66,7 @@ QueryOK(rule, nodes, ib, tags, q) ==
                     ELSE IF ib = <<>> THEN q.ivo = "err"
                     ELSE IF q.x < nodes[1].d THEN q.ivo = "ok" /\ q.iv.k = "F" /\ q.iv.re = FZ
                     ELSE /\ q.ivo = "ok" /\ IsNum(q.iv)
-                         /\ LET IV == Div(Const(ib[1], NS), Strip(W), NS) IN
+                         /\ LET IV == Widen(Div(Const(ib[1], NS), Strip(W), NS), NS) IN
                             FClose(q.iv.re, IV.re, IV.sre) /\ (Sens => CloseTo(q.iv, IV, NS)))
 StateOK(rule, ib, want, s) ==
   /\ NodesOK(s.nodes, want)
